@@ -754,6 +754,16 @@ func (t *paramTracer) traceValue(fn *ssa.Function, v ssa.Value, depth int, root 
 			}
 		}
 		return fmt.Sprintf("sub-slice in %s whose bound is not the result of ParsePackage (PackageFull)", fname(fn))
+	case *ssa.Call:
+		// append(<anything>, buf[:L]...) is at least L bytes long
+		if builtinName(&x.Call) == "append" && len(x.Call.Args) == 2 {
+			if sl, ok := x.Call.Args[1].(*ssa.Slice); ok && sl.High != nil {
+				if ok, desc := framedLength(sl.High, x.Block()); ok {
+					t.note(root, fname(fn)+": append(.., buf[:"+desc+"]...)")
+					return ""
+				}
+			}
+		}
 	}
 	return fmt.Sprintf("value %s in %s has an unrecognised origin (undecided)", v.Name(), fname(fn))
 }
